@@ -91,6 +91,18 @@ func ruleNX(w *world.World, r *report.RuleResult) {
 				}
 				return 0
 			}
+			// _, ok := store[d]: the found edge
+			if ex, ok := c.(*ssa.Extract); ok && ex.Index == 1 {
+				if lk, ok := ex.Tuple.(*ssa.Lookup); ok && lk.CommaOk && isPerDBOuter(lk.X) && same(lk.Index) {
+					okEdge := 0
+					if neg {
+						okEdge = 1
+					}
+					if si == okEdge {
+						return fExists
+					}
+				}
+			}
 			// _, ok := store[d][k]: the ok edge
 			if ex, ok := c.(*ssa.Extract); ok && ex.Index == 1 {
 				if lk, ok := ex.Tuple.(*ssa.Lookup); ok && lk.CommaOk {
